@@ -22,3 +22,29 @@ pub fn yield_point(site: u32) {
         f(site);
     }
 }
+
+/// Observer of `RelationSet::add` calls: (modulus, factor base size, large prime bound,
+/// relation, large prime pair).  Used to record the insertion history of a real sieve so
+/// that it can be replayed into a fresh store in other orders.
+pub type AddSink = fn(&crate::Uint, usize, u64, &crate::relations::Relation, &Option<(u64, u64)>);
+
+static ADD_SINK: AtomicUsize = AtomicUsize::new(0);
+
+pub fn set_add_sink(f: Option<AddSink>) {
+    ADD_SINK.store(f.map(|f| f as usize).unwrap_or(0), Ordering::SeqCst);
+}
+
+#[inline]
+pub fn relation_added(
+    n: &crate::Uint,
+    fbsize: usize,
+    maxlarge: u64,
+    r: &crate::relations::Relation,
+    pq: &Option<(u64, u64)>,
+) {
+    let p = ADD_SINK.load(Ordering::Relaxed);
+    if p != 0 {
+        let f: AddSink = unsafe { std::mem::transmute::<usize, AddSink>(p) };
+        f(n, fbsize, maxlarge, r, pq);
+    }
+}
